@@ -383,7 +383,7 @@ def make_outcome(w: Workflow, rng: random.Random, mode="complete", ghosts=False)
         script = ["started"]
         submit_ok = True
         customs = w.custom.get(name) or {}
-        novanish = mode == "complete_novanish"      # (jobs are never evicted: the design model has no polls)
+        novanish = mode.endswith("_novanish")      # (jobs are never evicted: the design model has no polls)
         if mode in ("complete", "complete_novanish"):
             # count earlier failures of this instance to stay within the retry budget
             prev = [table.get((str(point), name, k)) for k in range(1, int(sub))]
@@ -419,7 +419,7 @@ def make_outcome(w: Workflow, rng: random.Random, mode="complete", ghosts=False)
                 if r.random() < 0.6:
                     script.append("msg_" + o)
             script.append("failed" if r.random() < 0.3 else "succeeded")
-            if submit_ok and r.random() < 0.2:
+            if submit_ok and r.random() < 0.2 and not novanish:
                 script = ["vanish"]
         table[key] = {"submit_ok": submit_ok, "script": script}
         if mode not in ("complete", "complete_novanish") and not submit_ok and ghost:
